@@ -80,6 +80,23 @@ def snapshot(obj, prefix, out=None):
     return out
 
 
+def node_from_obj(obj):
+    """World node describing the current contents of a live container (inverse of build_node)."""
+    if isinstance(obj, dict):
+        return {"dict": [[enc(k), node_from_obj(v)] for k, v in obj.items()]}
+    if isinstance(obj, list):
+        return {"list": [node_from_obj(v) for v in obj]}
+    if isinstance(obj, C.LogObj):
+        return {"obj": [[k, node_from_obj(v)] for k, v in obj._items().items()]}
+    if isinstance(obj, C.FnBox):
+        return {"fn": 1}
+    return enc(obj)
+
+
+def world_from_runner(runner):
+    return {"labels": {label: node_from_obj(obj) for label, obj in runner.data.items()}}
+
+
 def path_text(path):
     s = path[0]
     for st in path[1:]:
@@ -236,6 +253,26 @@ class Runner:
         else:
             parent[self.mkref(st[1])] = value
 
+    def make_task(self, op):
+        """Build (not register) the FunctionTask / LinearKnob described by an ftask / knob op."""
+        if op[0] == "ftask":
+            name, deps, target, weights, const = op[1:6]
+            deps_r = [self.mkref(p) for p in deps]
+            tref = self.mkref(target)
+
+            def action(deps_r=deps_r, tref=tref, weights=[dec(w) for w in weights], const=dec(const)):
+                acc = const
+                for w, d in zip(weights, deps_r):
+                    acc = acc + w * d._get_value()
+                tref._set_value(acc)
+            depset = set()
+            for d in deps_r:
+                depset |= d._get_dependencies()
+            return self.xd.tasks.FunctionTask(name, action, tref._get_dependencies(), depset)
+        name, source, weights, targets = op[1:5]
+        return self.xd.tasks.LinearKnob(name, self.mkref(source), [dec(w) for w in weights],
+                                        [self.mkref(t) for t in targets])
+
     # -- ops -------------------------------------------------------------------
     def exec_op(self, op):
         k = op[0]
@@ -253,29 +290,18 @@ class Runner:
         elif k == "replace":    # ["replace", path, node]  container object replaced
             self.assign(op[1], build_node(op[2], path_text(op[1])))
         elif k == "ftask":      # ["ftask", name, [dep paths], target path, weights, const]
-            name, deps, target, weights, const = op[1:6]
-            deps_r = [self.mkref(p) for p in deps]
-            tref = self.mkref(target)
-
-            def action(deps_r=deps_r, tref=tref, weights=[dec(w) for w in weights], const=dec(const)):
-                acc = const
-                for w, d in zip(weights, deps_r):
-                    acc = acc + w * d._get_value()
-                tref._set_value(acc)
-            depset = set()
-            for d in deps_r:
-                depset |= d._get_dependencies()
-            task = self.xd.tasks.FunctionTask(name, action, tref._get_dependencies(), depset)
+            task = self.make_task(op)
             m.register(task)
-            self.named_tasks[name] = task
-            m.set_value(deps_r[0], deps_r[0]._get_value())   # first run (see shadow)
+            self.named_tasks[op[1]] = task
+            dep0 = self.mkref(op[2][0])
+            m.set_value(dep0, dep0._get_value())   # first run (see shadow)
         elif k == "knob":       # ["knob", name, source path, [weights], [target paths]]
-            name, source, weights, targets = op[1:5]
-            task = self.xd.tasks.LinearKnob(name, self.mkref(source), [dec(w) for w in weights],
-                                            [self.mkref(t) for t in targets])
-            # LinearKnob leaves targets as given (a list); the manager iterates them
+            task = self.make_task(op)
             m.register(task)
-            self.named_tasks[name] = task
+            self.named_tasks[op[1]] = task
+        elif k == "load":       # ["load", [[path, term]..], overwrite]  (text form, as dump() produces)
+            pairs = [(str(self.mkref(p)), str(self.build(t))) for p, t in op[1]]
+            m.load(pairs, overwrite=op[2])
         elif k == "unreg_task":
             m.unregister(op[1])
             self.named_tasks.pop(op[1], None)
